@@ -710,6 +710,10 @@ func (d *urlValuesDecoder) DecodeObject(param string, sm *openapi3.Serialization
 		}
 	}
 
+	if !found && len(val) == 0 {
+		// only unrelated query parameters were seen: the parameter is absent
+		return nil, false, nil
+	}
 	return val, found, nil
 }
 
